@@ -952,9 +952,10 @@ class SymReal:
 # Engine
 
 class PathResult:
-    __slots__ = ('pc', 'value', 'exc', 'decisions', 'log')
+    __slots__ = ('pc', 'value', 'exc', 'decisions', 'log', 'assumed')
 
-    def __init__(self, pc, value, exc, decisions, log):
+    def __init__(self, pc, value, exc, decisions, log, assumed=()):
+        self.assumed = list(assumed)   # positions in pc that are assumptions (stub contracts), not branches
         self.pc = pc            # list of z3 Bool terms
         self.value = value
         self.exc = exc
@@ -1101,6 +1102,7 @@ class Engine:
         self.prefix = prefix
         self.pos = 0
         self.pc = []
+        self.assumed_idx = []
         self.log = []
         self.model = None
         self._path_fresh = itertools.count()
@@ -1124,6 +1126,7 @@ class Engine:
             return
         if z3.is_false(ts):
             raise Abort()
+        self.assumed_idx.append(len(self.pc))
         self._push(t)
         self.model = None
         self._model()
@@ -1285,8 +1288,15 @@ class Engine:
                     raise
                 v, exc = None, e
             self.stats.paths += 1
-            results.append(PathResult(list(self.pc), v, exc, list(self.prefix[:self.pos]), list(self.log)))
+            results.append(PathResult(list(self.pc), v, exc, list(self.prefix[:self.pos]), list(self.log),
+                                      list(self.assumed_idx)))
         return results
+
+    @staticmethod
+    def branch_pc(p: 'PathResult'):
+        """Path condition without the assumed (contract) atoms: what the branches alone decided."""
+        a = set(p.assumed)
+        return [t for i, t in enumerate(p.pc) if i not in a]
 
     # -- queries on a finished path
     def query(self, pc, negated_goal, timeout_ms=None, label=''):
